@@ -1379,3 +1379,78 @@ func evalHoistCond(c ssa.Value, pos ssa.Value, list ssa.Value, k int64) (bool, b
 	}
 	return false, false
 }
+
+// NoEmptyRestrictionList (C02.5): the grammar derives a direct assignment only with at least one restriction between
+// the brackets (R8.4: "[]" is underivable). Where the printer writes "[" + the joined restrictions + "]", the list
+// was shown to be non-empty — in that function or at every one of its call sites — or the printer fails. A model
+// whose relation has a direct assignment and no directly related user types (every schema 1.0 model) is otherwise
+// printed as "define r: []", which no parser of this grammar accepts.
+func NoEmptyRestrictionList(p *load.Prog, r *oblig.Report, rule string, funcs []*ssa.Function) {
+	n := 0
+	nonEmptyGuard := func(b *ssa.BasicBlock) bool {
+		for _, ce := range DominatingConds(b) {
+			bo, ok := ce.Cond.(*ssa.BinOp)
+			if !ok {
+				continue
+			}
+			for _, side := range []ssa.Value{bo.X, bo.Y} {
+				if c, ok := side.(*ssa.Call); ok {
+					if bi, isB := c.Common().Value.(*ssa.Builtin); isB && bi.Name() == "len" {
+						if _, isSl := c.Common().Args[0].Type().Underlying().(*types.Slice); isSl {
+							nonEmpty := (bo.Op == token.GTR && ce.Branch) || (bo.Op == token.NEQ && ce.Branch) || (bo.Op == token.EQL && !ce.Branch) || (bo.Op == token.LSS && ce.Branch)
+							if nonEmpty {
+								return true
+							}
+						}
+					}
+				}
+			}
+		}
+		return false
+	}
+	for _, fn := range funcs {
+		if fn.Pkg == nil || fn.Pkg.Pkg.Name() != "transformer" {
+			continue
+		}
+		for _, b := range fn.Blocks {
+			for _, in := range b.Instrs {
+				call, ok := in.(*ssa.Call)
+				if !ok {
+					continue
+				}
+				cal := call.Common().StaticCallee()
+				if cal == nil || cal.Pkg == nil || cal.Pkg.Pkg.Path() != "fmt" || cal.Name() != "Sprintf" || len(call.Common().Args) == 0 {
+					continue
+				}
+				k, ok := call.Common().Args[0].(*ssa.Const)
+				if !ok || k.Value == nil || k.Value.Kind() != constant.String {
+					continue
+				}
+				f := constant.StringVal(k.Value)
+				if !(strings.HasPrefix(f, "[%") && strings.HasSuffix(f, "]") && len(f) <= 5) {
+					continue
+				}
+				n++
+				construct := "empty-restriction-list:" + fn.Name()
+				guarded := nonEmptyGuard(b)
+				if !guarded {
+					sites := callSitesOf(funcs, fn)
+					guarded = len(sites) > 0
+					for _, s := range sites {
+						if !nonEmptyGuard(s.Block()) {
+							guarded = false
+						}
+					}
+				}
+				if guarded {
+					r.OK(rule, construct, p.Pos(call.Pos()), "dominating-test", "the bracketed list is written only when it has an element")
+				} else {
+					r.Bad(rule, construct, p.Pos(call.Pos()), "the brackets of a direct assignment are written around a list that was not shown to have an element: a relation with a direct assignment and no directly related user types is printed as 'define r: []', which the grammar does not derive (R8.4), instead of the conversion failing")
+				}
+			}
+		}
+	}
+	if n == 0 {
+		r.Unknown(rule, "empty-restriction-list", "-", "no place found where the printer writes a bracketed list: anchors no longer resolve")
+	}
+}
